@@ -280,6 +280,24 @@ pub fn try_name_in(cfg: &Cfg, name: &str, via: Via, in_sub: bool, populated: boo
                 if others != 0 {
                     return Err((format!("C15/unexpected-entries/{vname}"), format!("{ctx}: {others} other entries listed")));
                 }
+                // stored losslessly for every reader, not only for the library's own: the independent decoder finds an
+                // entry with exactly this name, and has nothing to say against its long-name run
+                {
+                    let dpath = if in_sub { "/sub" } else { "/" };
+                    match harness::decoder::decode(&st.borrow(), &harness::decoder::DecodeOpts { read_content: false, ..Default::default() }) {
+                        Ok(d) => {
+                            let seen = d.dir_by_path(dpath).map_or(false, |dd| dd.entries.iter().any(|e| e.name == name));
+                            let lfn_finding = d.findings.iter().find(|f| f.sig.starts_with("I5/"));
+                            if !seen || lfn_finding.is_some() {
+                                return Err((
+                                    format!("C15/accepted-name-not-stored-losslessly-on-disk/{special}/{vname}"),
+                                    format!("{ctx}: independent decoder finds the name: {seen}; long-name finding: {:?}", lfn_finding.map(|f| f.msg.clone())),
+                                ));
+                            }
+                        }
+                        Err(e) => return Err((format!("C15/image-does-not-decode/{vname}"), format!("{ctx}: {e}"))),
+                    }
+                }
                 let open = |q: &str| -> Result<bool, ErrKind> {
                     let r = if is_dir { dir.open_dir(q).map(|_| ()) } else { dir.open_file(q).map(|_| ()) };
                     match r {
